@@ -1,0 +1,14 @@
+// Copyright 2020 Denis Bernard <db047h@gmail.com>. All rights reserved.
+// Use of this source code is governed by a BSD-style
+// license that can be found in the LICENSE file.
+
+//go:build !verif
+// +build !verif
+
+package decimal
+
+// Verification hooks (see pool_verif.go); no-ops in a normal build.
+
+func verifGetDec(n int) *dec { return nil }
+
+func verifPutDec(x *dec) bool { return false }
